@@ -115,8 +115,15 @@ def check_regexp_recursion(ctx, rep, f, st):
     for later in f.node.body[idx + 1:]:
         if isinstance(later, ast.Raise):
             tail_raise = True
+    # a catch-all: an else branch / a statement after the chain that returns a value handles the remaining constructors
+    def _returns_value(stmts):
+        return any(isinstance(x, ast.Return) and x.value is not None and not (isinstance(x.value, ast.Constant) and x.value.value is None) for s0 in stmts for x in ast.walk(s0))
+    catch_all = (chain[-1][0] is None and _returns_value(chain[-1][1]) and not has_else_raise) or (not tail_raise and _returns_value(f.node.body[idx + 1:]) and
+                                                                                                 all(any(isinstance(x, (ast.Return, ast.Raise)) for x in ast.walk(ast.Module(body=list(b), type_ignores=[]))) for t0, b in chain if t0 is not None))
     if not missing:
         rep.holds(RULE + '.a', f, 'def ' + f.name, 'all six regular-expression constructors are handled')
+    elif catch_all:
+        rep.holds(RULE + '.a', f, 'def ' + f.name, 'the constructors {} fall to the catch-all return of the function'.format(missing), nontrivial=False)
     elif has_else_raise or tail_raise:
         rep.violates(RULE + '.a', f, 'def ' + f.name, 'the constructor(s) {} are not handled: the function raises for valid expressions'.format(missing))
     else:
@@ -246,6 +253,43 @@ def check_kind_dispatch(ctx, rep, f, suffix, rule=RULE + '.b'):
             else:
                 rep.violates(rule, f, c, '{} objects are sent to {}, whose first parameter is a {}'.format(k, cal.name, kname))
         break
+    if not seen:
+        # table form:  table = ((K1, f1), (K2, f2), ...) ; for cls, fn in table: if isinstance(X, cls): return fn(X, ...)
+        for lp in walk_no_nested(f.node):
+            if not (isinstance(lp, ast.For) and isinstance(lp.target, ast.Tuple) and len(lp.target.elts) == 2 and all(isinstance(x, ast.Name) for x in lp.target.elts)):
+                continue
+            kvar, fvar = lp.target.elts[0].id, lp.target.elts[1].id
+            uses_k = any(isinstance(c, ast.Call) and isinstance(c.func, ast.Name) and c.func.id == 'isinstance' and len(c.args) == 2 and u(c.args[1]) == kvar for c in ast.walk(lp))
+            uses_f = any(isinstance(c, ast.Call) and isinstance(c.func, ast.Name) and c.func.id == fvar for c in ast.walk(lp))
+            if not (uses_k and uses_f):
+                continue
+            table = lp.iter
+            if isinstance(table, ast.Name):
+                defs = [n.value for n in walk_no_nested(f.node) if isinstance(n, ast.Assign) and len(n.targets) == 1 and isinstance(n.targets[0], ast.Name) and n.targets[0].id == table.id]
+                if len(defs) != 1:
+                    continue
+                table = defs[0]
+            if not isinstance(table, (ast.Tuple, ast.List)):
+                continue
+            for row in table.elts:
+                if not (isinstance(row, ast.Tuple) and len(row.elts) == 2):
+                    continue
+                k = u(row.elts[0]).split('.')[-1]
+                if k not in KINDS:
+                    continue
+                r = ctx.prog.resolve_expr(f, f.module, row.elts[1]) if isinstance(row.elts[1], (ast.Name, ast.Attribute)) else None
+                cal = r.target if r is not None and r.kind == 'func' else None
+                if cal is None or not cal.name.endswith(suffix):
+                    rep.violates(rule, f, row, 'the table row for {} does not name a *{} routine'.format(k, suffix))
+                    continue
+                t0 = ctx.typer.parse_annotation(cal.module, cal, cal.pos_params[0].annotation) if cal.pos_params else None
+                kname = t0[1].split('.')[-1] if t0 and t0[0] == 'cls' else None
+                seen.add(k)
+                if kname == k:
+                    rep.holds(rule, f, row, '{} objects are sent to {} (first parameter annotated {})'.format(k, cal.name, k))
+                else:
+                    rep.violates(rule, f, row, '{} objects are sent to {}, whose first parameter is a {}'.format(k, cal.name, kname))
+            break
     missing = [k for k in KINDS if k not in seen]
     if missing:
         rep.violates(rule, f, 'def ' + f.name, 'no branch for {}'.format(missing))
@@ -316,7 +360,14 @@ def command_table(ctx, f):
                             lst = ast.literal_eval(a[2])
                             lits += list(lst)
                         except (ValueError, SyntaxError):
-                            pass
+                            # command in TABLE, with TABLE a module-level (or local) literal: the keys / elements
+                            if a[2].isidentifier():
+                                for src in (f.node, f.module.tree):
+                                    for n0 in (walk_no_nested(src) if src is f.node else src.body):
+                                        if isinstance(n0, ast.Assign) and len(n0.targets) == 1 and isinstance(n0.targets[0], ast.Name) and n0.targets[0].id == a[2]:
+                                            v0 = n0.value
+                                            elts = v0.keys if isinstance(v0, ast.Dict) else (v0.elts if isinstance(v0, (ast.Tuple, ast.List, ast.Set)) else [])
+                                            lits += [x.value for x in elts if isinstance(x, ast.Constant) and isinstance(x.value, str)]
                     if a[0] == 'eq' and a[1] == 'command' and a[2] == 'None':
                         lits.append(None)
                 if not lits:
